@@ -58,7 +58,7 @@ func (c *Client) handleStatus() error {
 	cmd := c.findPendingCmdFunc(func(cmd command) bool {
 		switch cmd := cmd.(type) {
 		case *StatusCommand:
-			return cmd.mailbox == data.Mailbox
+			return sameMailbox(cmd.mailbox, data.Mailbox)
 		case *ListCommand:
 			return cmd.returnStatus && cmd.pendingData != nil && cmd.pendingData.Mailbox == data.Mailbox
 		default:
@@ -75,6 +75,12 @@ func (c *Client) handleStatus() error {
 	}
 
 	return nil
+}
+
+// sameMailbox checks whether two mailbox names are equal. INBOX is
+// case-insensitive.
+func sameMailbox(a, b string) bool {
+	return a == b || (strings.EqualFold(a, "INBOX") && strings.EqualFold(b, "INBOX"))
 }
 
 // StatusCommand is a STATUS command.
